@@ -55,7 +55,8 @@ NONSTR = [None, True, False, 0, 1, 64, 1.5, [], {}, ["ab"], {"a": 1}] + [
     {"$py": n} for n in ("object", "complex", "decimal_1", "set_ab", "range3", "function", "bytes_empty", "tuple_empty",
                          "memoryview", "datetime")
 ] + [{"$py": "bytes", "hex": "ab" * 32}, {"$py": "bytes", "hex": "61" * 64}, {"$py": "bytearray", "hex": "61" * 64},
-     {"$py": "tuple", "items": ["ab"]}, {"$py": "strsub", "v": "ab" * 32}, {"$py": "strsub", "v": "AB"}]
+     {"$py": "tuple", "items": ["ab"]}, {"$py": "strsub", "v": "ab" * 32}, {"$py": "strsub", "v": "AB"}] + [
+    {"$py": t, "n": n} for t in ("listn", "dictn", "bytesn", "tuplen") for n in (40, 64, 128)]
 
 
 def plan(tier, seed):
@@ -187,7 +188,7 @@ GOOD = {
 def bad_value(field, rng):
     r = rng.random()
     good = GOOD[field](rng)
-    if r < 0.15:
+    if r < 0.2:
         return rng.choice(NONSTR)
     if r < 0.3:
         return good.upper() if good.upper() != good else good + "A"
